@@ -296,7 +296,13 @@ func (e *Enc) binop(x *ssa.BinOp, main bool) Val {
 	xt := x.X.Type()
 	switch x.Op {
 	case token.EQL, token.NEQ:
-		r := e.valEq(a, b, xt)
+		var r string
+		if _, isSl := xt.Underlying().(*types.Slice); isSl {
+			// slices are only comparable with nil in Go: compare the object id with 0
+			r = eq(a.L[0], b.L[0])
+		} else {
+			r = e.valEq(a, b, xt)
+		}
 		if x.Op == token.NEQ {
 			r = not(r)
 		}
@@ -502,7 +508,7 @@ func (e *Enc) valEq(a, b Val, t types.Type) string {
 		return e.decl(e.fresh("eqhv"), SBool)
 	}
 	switch t.Underlying().(type) {
-	case *types.Slice, *types.Map, *types.Signature:
+	case *types.Map, *types.Signature:
 		// only comparable with nil: compare object ids
 		return eq(a.L[0], b.L[0])
 	}
